@@ -966,6 +966,32 @@ func (fc *FCtx) execDefer(s *ast.DeferStmt, st *State) *Flow {
 		fc.mayPanic = true // panics do not escape: no panic-free obligations; the panic exit is modelled in run()
 		return single(st)
 	}
+	if lit, ok := s.Call.Fun.(*ast.FuncLit); ok && len(s.Call.Args) == 0 && len(fc.frames) == 1 {
+		var lfi *FuncInfo
+		for _, cand := range fc.E.funcs {
+			if cand.Lit == lit {
+				lfi = cand
+			}
+		}
+		if lfi == nil {
+			oos("deferred literal not indexed")
+		}
+		fr := fc.frame()
+		fr.deferred = append(fr.deferred, func(es *State) {
+			lfr := &frame{fi: lfi, inlined: true}
+			fc.frames = append(fc.frames, lfr)
+			fl := fc.execBlock(lit.Body.List, es)
+			fc.frames = fc.frames[:len(fc.frames)-1]
+			ends := append([]*State{}, fl.normal...)
+			for _, r := range lfr.returns {
+				ends = append(ends, r.st)
+			}
+			if m := fc.merge(ends); m != nil {
+				*es = *m
+			}
+		})
+		return single(st)
+	}
 	oos("defer %s", name)
 	return nil
 }
@@ -989,8 +1015,9 @@ func (fc *FCtx) execGo(s *ast.GoStmt, st *State) *Flow {
 }
 
 func (fc *FCtx) execSend(s *ast.SendStmt, st *State) *Flow {
-	oos("channel send")
-	return nil
+	fc.eval(s.Value, st)
+	fc.note("channel send modelled as a no-op on the sequential state (goroutine communication is not modelled)")
+	return single(st)
 }
 
 func (fc *FCtx) drop(what string) {
